@@ -47,10 +47,29 @@ def word_key(word):
 # ----------------------------------------------------------------------------------------
 # drawings
 # ----------------------------------------------------------------------------------------
-def make_drawing(model, word, via_constructor=False, **kw):
-    """A HyperbolicDrawing whose transformation is the word (add_transform / precompose_transform)."""
+MODEL_NAMES = {"poincare": ["poincare", "POINCARE"], "halfplane": ["halfplane", "halfspace", "HALFSPACE"],
+               "klein": ["klein", "kleinian", "AFFINE"]}
+DEFAULT_WINDOW = [-6, 6, 8]
+
+
+def model_arg(model, rng=None):
+    """the drawing's model as the library accepts it: an alias string (any case) or the enum member"""
+    from geometry_tools.hyperbolic import Model
+    if rng is None:
+        return model
+    names = MODEL_NAMES[model]
+    member = {"poincare": Model.POINCARE, "halfplane": Model.HALFSPACE, "klein": Model.KLEIN}[model]
+    return rng.choice(names + [member, member])
+
+
+def make_drawing(model, word, via_constructor=False, window=None, rng=None, **kw):
+    """A HyperbolicDrawing whose transformation is the word (add_transform / precompose_transform); a window other than
+    the default is given to the constructor as xlim / ylim."""
     D = drawtools()
     w = list(word)
+    if window is not None and list(window) != DEFAULT_WINDOW:
+        kw = dict(kw, xlim=(float(window[0]), float(window[1])), ylim=(-0.1, float(window[2])))
+    model = model_arg(model, rng)
     if via_constructor and w:
         d = D.HyperbolicDrawing(model=model, transform=hc.lib_atom(w[0][1], 2), **kw)
         w = w[1:]
